@@ -445,7 +445,8 @@ def r142(ctx, rep, f, ev, cg, reach):
             a = mine[0]["args"][1]
             ok = a == "sym(stat)" or a.startswith("StatType::%s(" % v) and "payload(sym(stat),%s)" % v in a
             extra = [g for g in mine[0]["guard"] if ("is%s(" % v) not in g]
-            ok = ok and not extra
+            allowed_extra = ["not symc(isSome(sym(self.stats_collector.error_stats.fatal_error)))"] if v in ("Error", "Fatal") else []
+            ok = ok and extra == allowed_extra
         early = [o for o in rets if any(("is%s(sym(stat))" % v) in g for g in o["guard"])]
         if v in ("Error", "Fatal"):
             ok = ok and len(early) == 1 and early[0]["guard"][-1] == "symc(isSome(sym(self.stats_collector.error_stats.fatal_error)))"
